@@ -299,3 +299,40 @@ Fixpoint c11_trace (cfb cfk : c11_cfg) (st : c11_state) (rs : list c11_req)
 
 Definition c11_cfg_complete (cf : c11_cfg) : bool :=
   cf_rb_sys cf && cf_rb_metric cf && (cf_rb_kind cf || cf_switch cf).
+
+(* ---- the caller's query array after a call ----
+   _prepare_xy_for_query / _prepare_xyz_for_query build their result in fresh arrays (np.asarray of the
+   argument, np.expand_dims / np.flip views, np.deg2rad with a new output): the caller's array keeps
+   its content.  `inplace = true` is the variant that converts the argument itself (np.deg2rad(xy, out=xy)
+   on a float64 array): kept only to state what would go wrong. *)
+Definition c11_arg_after (inplace : bool) (num : Z) (s : c11_system) (q : list c11_pt) (in_radians : bool) : list c11_pt :=
+  if inplace then
+    match s with
+    | C11Spherical => if in_radians then q else map (map (c11_deg2rad num)) q
+    | C11Cartesian => q
+    end
+  else q.
+
+(* ---- a second grid object derived from the first (Grid.copy / isel / get_dual) ----
+   As coded the derived grid starts without trees (its own empty caches).  `share = true` is the variant
+   that hands the first grid's cached wrapper objects to the derived grid by reference: both grids then
+   act on one and the same cache state. *)
+Inductive c11_op2 := C11OnOriginal (r : c11_req) | C11OnDerived (r : c11_req).
+
+Fixpoint c11_run2 (share : bool) (cfb cfk : c11_cfg) (sa sb : c11_state) (ops : list c11_op2) : c11_state * c11_state :=
+  match ops with
+  | [] => (sa, sb)
+  | C11OnOriginal r :: ops' =>
+      let sa' := fst (c11_step cfb cfk sa r) in
+      c11_run2 share cfb cfk sa' (if share then sa' else sb) ops'
+  | C11OnDerived r :: ops' =>
+      let sb' := fst (c11_step cfb cfk sb r) in
+      c11_run2 share cfb cfk (if share then sb' else sa) sb' ops'
+  end.
+
+(* the derived grid right after it is made *)
+Definition c11_derive (share : bool) (sa : c11_state) : c11_state := if share then sa else c11_init.
+
+(* what the handles held on a grid answer: the observation of its cached objects *)
+Definition c11_handles (st : c11_state) : option (c11_kind * option (c11_system * c11_metric)) * option (c11_kind * option (c11_system * c11_metric)) :=
+  (option_map c11_observe (st_ball st), option_map c11_observe (st_kd st)).
